@@ -16,6 +16,24 @@ CHECKS = {
  "C03": ("Same module as C01; the environment also chooses how and at which step the pipeline fails (function error, fatal result, requirements that never stabilise) and changes the desired set; "
          "TLC judges FailSafe (no composed write, references untouched after an observation/pipeline failure), NeverDeleteDesired and GcExact (deleted = referenced, controllable, no longer desired) on the real traces.",
          "Two-step scripted pipeline (step 1 over-approximates, the last step decides); bounds as C01.", "DESIGN.md 3 C03"),
+ "C07": ("spec/FieldPartition.tla states the claim/XR field partition independently of the code's tables; TLC enumerates presence/absence classes of every machinery field, user fields that shadow machinery names at other nesting levels, reserved/unreserved label keys, update policies, both syncers, first sync and re-sync; each vector is pruned by the real generated claim CRD, run through the real Sync of both syncers on simapi (real SSA field ownership) and judged by 24 TLA+ formulas.",
+         "Values are atoms; two behaviours the property does not demand are deliberately not asserted (DESIGN 3 C07); look-alike label keys are an observation outside the default runs.", "DESIGN.md 3 C07"),
+ "C09": ("spec/ConnSecrets.tla: TLC enumerates connection detail maps, XRD key filters, extraction configs and every pre-state of source/destination secrets; the real publisher, extractor and claim propagator (and end-to-end the real XR and claim reconcilers) run on stored secrets; TLC judges Filtered, OnlyIfAsked, ExactCopy, NoRead, NoRewrite, ForeignUntouched, OwnerOnly on each recorded outcome.",
+         "Publishing is a merge patch: Filtered is judged on what this publish writes (DESIGN 3 C09).", "DESIGN.md 3 C09"),
+ "C10": ("spec/Patches.tla transcribes the case analysis of P&T patches and transforms over a lattice of boundary JSON values; every enumerated vector is one run of the real Apply/Resolve/Render functions (panics recovered and recorded) and, for HalfRendered, of the real PTComposer on simapi; TLC judges Total, Determinism, SourcePure, OptionalNoop, RequiredErr, ConvertLaw/Meaning.*, HalfRendered.* on the recorded outputs.",
+         "Bounded value lattice: arbitrary strings, unicode, number precision are outside it; where the API documentation is silent only totality/purity/determinism are asserted.", "DESIGN.md 3 C10"),
+ "C12": ("spec/CompRev.tla models the composition revision controller (one action per API call, faults/crashes, edits incl. reverts and label-only edits, stripped owner references) and the XR-side revision fetch; behaviours are replayed on the real composition.Reconciler and APIRevisionFetcher; TLC judges OnePerContent, Faithful, Monotone, CurrentHighest, Manual, Automatic on every recorded state.",
+         "List order fixed by construction of names; bounds 3-4 contents, <=4 edits, <=2 faults.", "DESIGN.md 3 C12"),
+ "C13": ("spec/Engine.tla models the controller engine at the grain of its lock-protected segments (StartWatches and the collector read, release every lock, and act later); TLC explores all interleavings of concurrent callers; each schedule is replayed deterministically on the real ControllerEngine/StoppableSource/InformerTrackingCache/watch GC by pausing the real goroutines inside the fakes; plus truly concurrent stress and a race-detector run; TLC judges OneWatch, StopClean, GcOnlyUnused, Reestablish, RunningExact, NoDeadlock.",
+         "Interleavings inside a lock-protected segment cannot be forced without hooks and are only reached by the stress runs; Go memory-model races are covered by go build -race, not by TLA+.", "DESIGN.md 3 C13"),
+ "C16": ("spec/Establisher.tla models Establish (validate phase then establish phase, one action per call) and ReleaseObjects over upgrade/rollback sequences, pre-existing objects (absent, uncontrolled, controlled by the previous revision or by another package) and scripted rejections; behaviours are replayed on the real revision reconciler + APIEstablisher (sequential with fault sweep, and 4 workers under a seeded gate); TLC judges AllOrNothing, OnlyActiveCreates, InactivePlain, OneController, ReleaseKeeps, PkgOwner, ForeignUntouched.",
+         "'Cannot be taken over' is judged on the cluster state when Establish starts; a transient API fault after full validation may leave a prefix written (interpretation in the spec).", "DESIGN.md 3 C16"),
+ "C17": ("spec/Deps.tla holds the reference semantics (reachability, cycles, implied nodes, semantic-version order, constraint satisfaction, MaxSat/MinUpgrade/MaxDowngrade, Satisfied); TLC enumerates all digraphs on <=3 (4) nodes, tag lists and constraint shapes; each vector runs the real MapDag/MapUpgradingDag, the resolver Reconciler end-to-end and PackageDependencyManager.Resolve; TLC judges the outputs.",
+         "Constraint strings from a fixed family of shapes; a recovered panic that installs nothing (D5) is an observation, not a violation.", "DESIGN.md 3 C17"),
+ "C18": ("spec/RBAC.tla states Kubernetes' rule denotation and Covers over a small universe with wildcards; TLC enumerates allow-list x request pairs, owned CRD lists, family/registry/org combinations and XRDs; the real validator, role renderers and the provider roles/binding reconcilers run on simapi; TLC judges Sound, AllOrNone, SystemRole, Family, Binding, XrdRoles on the recorded roles.",
+         "Completeness (rejecting what Kubernetes would cover) is information only. Known finding D12 (literal '*' resource name in the allow list).", "DESIGN.md 3 C18"),
+ "C20": ("spec/Init.tla models the initializer steps in init.go order (one action per API call, faults/crashes, re-runs) over initial cluster contents and package reference forms; behaviours are replayed through the real initializer.Init with the real steps on simapi (fast key pool injected into the certificate generator, a sample with the real generator); TLC judges Idempotent, KeepCA, KeepCerts, Chain (x509 facts), NoDupPkg, Untouched, Bundle.",
+         "Image repository identity = registry host + path as written; certificate validity is computed by crypto/x509 in the projection.", "DESIGN.md 3 C20"),
  "C14": ("TLC exhaustively explores PkgManager.tla (package manager reconcile, one action per API call, faults/crashes at every call, user edits, registry changes); every reconcile-ending transition becomes a scenario replayed on the real manager.Reconciler; "
          "TLC judges OneActive, GcSafe, AfterReconcile, ActivateLast, NameFunction on every recorded state of the real executions.",
          "Bounds: 3 digests, 2 tags, <=4 edits, <=2 faults, <=5 reconciles; quick samples 3000 of the emitted scenarios + real-call-index fault sweep.", "DESIGN.md 3 C14"),
